@@ -974,6 +974,26 @@ Proof.
   rewrite app_length. specialize (H r). lia.
 Qed.
 
+(* the choice of the encoding *)
+Lemma ext_sel_false d : nth 1 d 0 <> EXTENDED_LENGTH -> ext_selected d = false.
+Proof. intros H. unfold ext_selected. apply Z.eqb_neq in H. rewrite H. apply andb_false_r. Qed.
+
+Lemma ext_sel_marker d : 4 <= len d -> nth 0 d 0 = EXTENDED_LENGTH -> nth 1 d 0 = EXTENDED_LENGTH -> ext_selected d = true.
+Proof.
+  intros Hl H0 H1. unfold ext_selected. rewrite H0, H1.
+  assert (len d <? 4 = false) as -> by (apply Z.ltb_ge; exact Hl).
+  destruct EXT_BY_TYPE_OCTET; reflexivity.
+Qed.
+
+Lemma ext_sel_rfc d : EXT_BY_TYPE_OCTET = true -> ext_selected d = rfc9072_extended d && negb (len d <? 4).
+Proof.
+  intros H. unfold ext_selected, rfc9072_extended. rewrite H.
+  change EXTENDED_LENGTH with 255. destruct (negb (nth 0 d 0 =? 0)), (negb (len d <? 4)), (nth 1 d 0 =? 255); reflexivity.
+Qed.
+
+Lemma params1_head raws : nth 0 (flat_map enc_param1 raws) 0 <> EXTENDED_LENGTH.
+Proof. destruct raws as [|r raws]; cbn; unfold EXTENDED_LENGTH, PARAM_CAPABILITIES; lia. Qed.
+
 Theorem optparams_roundtrip caps : Forall wf_cap caps ->
   dec_optparams (enc_optparams (map enc_cap caps)) = Ok caps.
 Proof.
@@ -982,18 +1002,16 @@ Proof.
   destruct (len p <? OPEN_PARAM_LEN_MAX) eqn:Hlt.
   - (* RFC 4271 encoding *)
     apply Z.ltb_lt in Hlt. unfold OPEN_PARAM_LEN_MAX in Hlt. unfold dec_optparams.
-    assert (len p =? EXTENDED_LENGTH = false) as -> by (apply Z.eqb_neq; unfold EXTENDED_LENGTH; lia).
-    cbn [andb]. rewrite len_cons.
+    rewrite (ext_sel_false (len p :: p)) by (cbn [nth]; apply params1_head).
+    rewrite len_cons.
     assert (len p + 1 <? len p + 1 = false) as -> by (apply Z.ltb_irrefl).
     cbv zeta. rewrite !firstn_len_self.
     apply dec_params1_enc; [|exact Hwf].
     unfold p. rewrite <- (map_length enc_cap caps). apply params_fuel. intros r. cbn. lia.
   - (* RFC 9072 encoding *)
     unfold dec_optparams. cbn [app be16].
-    change (OPEN_EXTENDED_MARKER =? EXTENDED_LENGTH) with true. cbn [andb nth].
-    change (OPEN_EXTENDED_MARKER =? EXTENDED_LENGTH) with true.
+    rewrite ext_sel_marker; [| rewrite !len_cons; pose proof (len_nonneg q); lia | reflexivity | reflexivity].
     rewrite !len_cons.
-    assert (len q + 1 + 1 + 1 + 1 <? 4 = false) as -> by (apply Z.ltb_ge; pose proof (len_nonneg q); lia).
     cbn [skipn]. unfold rd16. cbn [nth]. rewrite be16_value.
     assert (len q + 1 + 1 + 1 + 1 <? len q + 4 = false) as -> by (apply Z.ltb_ge; lia).
     cbv zeta. rewrite !firstn_len_self.
@@ -1204,8 +1222,7 @@ Lemma dec_optparams_total d : bytes d ->
   match dec_optparams d with Ok l => Forall dwf l | Notify a b => In (a, b) [(2, 0); (2, 5); (2, 4)] end.
 Proof.
   intros Hb. unfold dec_optparams. destruct d as [|ol t]; [constructor|].
-  destruct (_ && _); [left; reflexivity|].
-  destruct (_ && _).
+  destruct (ext_selected _).
   - destruct (_ <? _); [left; reflexivity|]. cbv zeta.
     apply dec_params_total; [apply le_n | apply bytes_firstn, bytes_skipn; exact Hb].
   - destruct (_ <? _); [left; reflexivity|]. cbv zeta.
@@ -1360,8 +1377,8 @@ Proof.
   assert (nth 0 (fixed ++ len p :: p) 0 = BGP_VERSION) as -> by (rewrite app_nth1 by lia; exact Hv).
   rewrite Z.eqb_refl. cbn [negb]. change (Z.to_nat OPEN_HEADER_SIZE) with 9%nat.
   rewrite <- Hf, skipn_app, skipn_all, Nat.sub_diag. cbn [app skipn]. unfold dec_optparams.
-  assert (len p =? EXTENDED_LENGTH = false) as -> by (apply Z.eqb_neq; unfold EXTENDED_LENGTH; lia).
-  cbn [andb]. rewrite len_cons, Z.ltb_irrefl. cbv zeta. rewrite firstn_len_self.
+  rewrite (ext_sel_false (len p :: p)) by (unfold p; cbn [nth]; exact Hk3).
+  rewrite len_cons, Z.ltb_irrefl. cbv zeta. rewrite firstn_len_self.
   unfold p. cbn [length dec_params]. rewrite kv1_enc.
   apply Z.eqb_neq in Hk1. apply Z.eqb_neq in Hk2. rewrite Hk1, Hk2. reflexivity.
 Qed.
@@ -1407,3 +1424,37 @@ Proof.
   - rewrite Hpa. cbn [rfc_negotiate p_peer_as]. unfold speaks_as4. cbn [our_adv a_as4 with_local_as c_asn4].
     rewrite H4. reflexivity.
 Qed.
+
+(* ------------------------------------------------------------------ RFC 9072: any non-zero length octet *)
+
+(* with the repaired selection the decoder chooses the extended encoding exactly as RFC 9072 s.2 says ... *)
+Theorem ext_selection_is_rfc d :
+  EXT_BY_TYPE_OCTET = true -> 4 <= len d -> ext_selected d = rfc9072_extended d.
+Proof.
+  intros H Hl. rewrite (ext_sel_rfc _ H).
+  assert (len d <? 4 = false) as -> by (apply Z.ltb_ge; exact Hl). apply andb_true_r.
+Qed.
+
+(* ... so the capabilities are read whatever the (non-zero) Non-Ext OP Len octet the peer wrote *)
+Theorem ext_any_length_octet caps L :
+  EXT_BY_TYPE_OCTET = true -> L <> 0 -> Forall wf_cap caps ->
+  let q := flat_map enc_param2 (map enc_cap caps) in
+  dec_optparams (L :: OPEN_EXTENDED_MARKER :: be16 (len q) ++ q) = Ok caps.
+Proof.
+  intros H HL Hwf q. unfold dec_optparams. cbn [app be16].
+  assert (Hsel : ext_selected (L :: OPEN_EXTENDED_MARKER :: len q / 256 :: len q mod 256 :: q) = true).
+  { unfold ext_selected. rewrite H. cbn [nth]. apply Z.eqb_neq in HL. rewrite HL. cbn [negb andb].
+    rewrite !len_cons.
+    assert (len q + 1 + 1 + 1 + 1 <? 4 = false) as -> by (apply Z.ltb_ge; pose proof (len_nonneg q); lia).
+    reflexivity. }
+  rewrite Hsel, !len_cons. cbn [skipn]. unfold rd16. cbn [nth]. rewrite be16_value.
+  assert (len q + 1 + 1 + 1 + 1 <? len q + 4 = false) as -> by (apply Z.ltb_ge; lia).
+  cbv zeta. rewrite !firstn_len_self.
+  apply dec_params2_enc; [|exact Hwf].
+  unfold q. rewrite <- (map_length enc_cap caps). apply params_fuel. intros r. cbn. lia.
+Qed.
+
+(* the unrepaired selection refuses such an OPEN: length octet 4, one route-refresh capability *)
+Theorem ext_length_octet_refuted :
+  ext_selected [4; 255; 0; 5; 2; 0; 2; 2; 0] = EXT_BY_TYPE_OCTET /\ rfc9072_extended [4; 255; 0; 5; 2; 0; 2; 2; 0] = true.
+Proof. split; vm_compute; reflexivity. Qed.
